@@ -95,12 +95,12 @@ theorem C06_plain_no_markers_in_entries (s : LState) (b wd : Bool) (d : Nat) (t 
   subst hb
   constructor <;> simp [collect] <;> exact allBytes_bytesT _
 
-/-! ### congruence with the plain rendering (one-line form, regular ASCII text)
+/-! ### congruence with the plain rendering (one-line form, regular text)
 
-  `RegE` (Proofs/Regular.lean): every string a layer shows on one line is ASCII, begins and ends
+  `RegE` (Proofs/Regular.lean): every string a layer shows on one line is valid UTF-8 without marker runes (`Clean`), begins and ends
   with a non-newline byte and has no doubled newline; stored redactable strings are well-formed.
-  The inputs are marker-free in the sense of the property: an ASCII string cannot hold a marker
-  rune.  The verbose form and non-ASCII text are decided by the correspondence and the oracle. -/
+  The inputs are marker-free in the sense of the property: that is what `Clean` says.
+  The verbose form is decided by the correspondence and the oracle. -/
 
 /-- stripping the markers (as tokens) from the redactable `%v`/`%s` rendering gives exactly the plain
     rendering of the same error, at any depth -/
